@@ -126,32 +126,37 @@ Fixpoint push_all_sorted (acc_last : option N) (vals : list N) : bool :=
               end
   end.
 
-Fixpoint store_deltas (c : scfg) (d : bvec) (block_idx i bmin : N) (vs : list N) : res bvec :=
-  match vs with
-  | [] => ROk d
-  | v :: t =>
-      if v <? bmin then RPanic else
-      let delta := v - bmin in
+(* values[i] *)
+Definition vnth (vals : list N) (i : N) : N := nth (N.to_nat i) vals 0.
+
+(* for i in 0..(block_end - block_start): check and store values[block_start + i] - block_min *)
+Fixpoint store_deltas (c : scfg) (vals : list N) (d : bvec) (block_idx block_start bmin i : N) (cnt : nat) : res bvec :=
+  match cnt with
+  | O => ROk d
+  | S k =>
+      let value := vnth vals (block_start + i) in
+      if value <? bmin then RPanic else
+      let delta := value - bmin in
       if 2 ^ ow c <=? delta then RErr else
       rbind (store_bits d (block_idx * bsize c * ow c + i * ow c) (N.land delta (N.ones 32)) (ow c)) (fun d' =>
-      store_deltas c d' block_idx (i + 1) bmin t)
+      store_deltas c vals d' block_idx block_start bmin (i + 1) k)
   end.
 
-(* compress_values: one iteration per block; `fuel` = number of blocks still to come *)
-Fixpoint compress_blocks (fuel : nat) (c : scfg) (idx dat : bvec) (block_idx : N) (vs : list N) : res (bvec * bvec) :=
-  match fuel with
+(* compress_values: for block_idx in 0..num_blocks; `nb` = number of blocks still to come *)
+Fixpoint compress_blocks (nb : nat) (c : scfg) (vals : list N) (idx dat : bvec) (block_idx : N) : res (bvec * bvec) :=
+  match nb with
   | O => ROk (idx, dat)
   | S f =>
-      match vs with
-      | [] => ROk (idx, dat)
-      | bmin :: _ =>
-          let blk := firstn (N.to_nat (bsize c)) vs in
-          let rest := skipn (N.to_nat (bsize c)) vs in
-          if (sw c <? 64) && negb (N.shiftr bmin (sw c) =? 0) then RErr else
-          rbind (store_bits idx (block_idx * sw c) bmin (sw c)) (fun idx' =>
-          rbind (store_deltas c dat block_idx 0 bmin blk) (fun dat' =>
-          compress_blocks f c idx' dat' (block_idx + 1) rest))
-      end
+      let n := nlen vals in
+      let block_start := block_idx * bsize c in
+      let block_end := N.min (block_start + bsize c) n in
+      if n <=? block_start then compress_blocks f c vals idx dat (block_idx + 1)      (* `continue` *)
+      else
+        let bmin := vnth vals block_start in
+        if (sw c <? 64) && negb (N.shiftr bmin (sw c) =? 0) then RErr else
+        rbind (store_bits idx (block_idx * sw c) bmin (sw c)) (fun idx' =>
+        rbind (store_deltas c vals dat block_idx block_start bmin 0 (N.to_nat (block_end - block_start))) (fun dat' =>
+        compress_blocks f c vals idx' dat' (block_idx + 1)))
   end.
 
 (* SortedUintVecBuilder::with_config(c), push every value, finish() *)
@@ -162,7 +167,7 @@ Definition sbuild (c : scfg) (vals : list N) : res svec :=
   | [] => ROk {| sdata := bempty; sindex := bempty; scfg_of := c; ssize := 0 |}
   | _ =>
       let nb := (nlen vals + bsize c - 1) / bsize c in
-      rbind (compress_blocks (N.to_nat nb) c bempty bempty 0 vals) (fun p =>
+      rbind (compress_blocks (N.to_nat nb) c vals bempty bempty 0) (fun p =>
       ROk {| sdata := snd p; sindex := fst p; scfg_of := c; ssize := nlen vals |})
   end.
 
